@@ -34,6 +34,9 @@ type ldesc struct {
 	// InSub: the whole loop sits inside 1..2 nested embedded sub-processes (an
 	// event must reach the node there exactly once)
 	InSub int `json:"inSub,omitempty"`
+	// DeclSeed permutes the order in which the document declares its elements
+	// (the catch event may be declared - and wired - first or last)
+	DeclSeed int `json:"declSeed,omitempty"`
 }
 
 func buildLoop(d ldesc) *gen.Graph {
@@ -53,7 +56,7 @@ type lres struct {
 
 func runLoop(d ldesc) *lres {
 	r := &lres{}
-	prog := &gen.Program{G: buildLoop(d), DefaultLang: "expr"}
+	prog := &gen.Program{G: buildLoop(d), DefaultLang: "expr", DeclSeed: d.DeclSeed}
 	r.XML = prog.XML()
 	in, err := drive.New(r.XML, drive.Options{Vars: map[string]any{"again": false}})
 	if err != nil {
@@ -182,7 +185,7 @@ func TestC14Loop(t *testing.T) {
 	}
 	rapid.Check(t, func(rt *rapid.T) {
 		n := rapid.IntRange(2, 3).Draw(rt, "n")
-		d := ldesc{Defs: kindsFor(n, rapid.IntRange(0, 2).Draw(rt, "variant")), InSub: rapid.SampledFrom([]int{0, 0, 1, 2}).Draw(rt, "inSub")}
+		d := ldesc{Defs: kindsFor(n, rapid.IntRange(0, 2).Draw(rt, "variant")), InSub: rapid.SampledFrom([]int{0, 0, 1, 2}).Draw(rt, "inSub"), DeclSeed: rapid.IntRange(0, 200).Draw(rt, "declSeed")}
 		for i := rapid.IntRange(2, 14).Draw(rt, "steps"); i > 0; i-- {
 			switch k := rapid.IntRange(0, 9).Draw(rt, "step"); {
 			case k <= 5:
